@@ -1,6 +1,6 @@
 import CoolerModel.Model.Merge
 import CoolerModel.Props.GroupSumLemmas
-import CoolerModel.Props.C02
+import CoolerModel.Props.C02Core
 import CoolerModel.Props.C03
 /-!
 # C07 — merging coolers is the exact element-wise aggregate of the inputs
